@@ -557,14 +557,23 @@ func runConc(c CCase) *vt.Outcome {
 			panic(g.repanic)
 		}
 	}
+	// A name reference resolved against another goroutine's binding poisons the
+	// shared context's tables (the wrong type is filed under the right type
+	// value), so anything another goroutine reports in the same case may be a
+	// consequence: that finding takes precedence.
 	for _, g := range gs {
-		if g.fail != nil {
-			if g.fail.Sig == sigConcRef && vt.IsKnown(sigConcRef) {
-				// the shared context is now poisoned for that type value; stop here
+		if g.fail != nil && g.fail.Sig == sigConcRef {
+			if vt.IsKnown(sigConcRef) {
 				o.Known = append(o.Known, sigConcRef)
 				o.Label("known:nameref-rebinding-observed-by-goroutine")
 				return o
 			}
+			o.Fail = g.fail
+			return o
+		}
+	}
+	for _, g := range gs {
+		if g.fail != nil {
 			o.Fail = g.fail
 			return o
 		}
